@@ -158,6 +158,19 @@ def _asarray(x, *a, **kw):
     return wrap_result(r)
 
 
+def _take(arr, indices, *a, **kw):
+    kw.pop("like", None)
+    if isinstance(indices, np.ndarray) and indices.dtype == object:
+        # indices computed from symbolic data (where(cond, j_upper, j_lower)): the code needs concrete positions -> fork per element
+        conc = np.empty(indices.shape, dtype=np.int64)
+        for i, v in np.ndenumerate(indices):
+            conc[i] = int(v)
+        indices = conc
+    elif isinstance(indices, SymReal):
+        indices = int(indices)
+    return wrap_result(np.take(arr, indices, *a, **kw))
+
+
 def _linalg_norm(x, *a, **kw):
     kw.pop("like", None)
     if _symbolic_in(x) and not a and not kw:
@@ -194,8 +207,9 @@ def install():
     reg("numpy", "to_numpy", _to_numpy)
     reg("numpy", "asarray", _asarray)
     reg("numpy", "linalg.norm", _linalg_norm)
+    reg("numpy", "take", _take)
     for name in ("zeros", "ones", "zeros_like", "ones_like", "stack", "concatenate", "copy", "clone", "reshape", "tile",
-                 "atleast_1d", "atleast_2d", "array", "take", "sum", "transpose", "eye", "diag", "empty", "full", "sort",
+                 "atleast_1d", "atleast_2d", "array", "sum", "transpose", "eye", "diag", "empty", "full", "sort",
                  "swapaxes", "ravel", "squeeze", "expand_dims", "cumsum", "prod", "max", "min", "arange", "linspace"):
         try:
             base = getattr(np, name) if name != "clone" else np.copy
